@@ -36,6 +36,8 @@ import (
 	"github.com/openGemini/openGemini/lib/errno"
 	logger2 "github.com/openGemini/openGemini/lib/logger"
 	meta2 "github.com/openGemini/openGemini/lib/util/lifted/influx/meta"
+	proto2 "github.com/openGemini/openGemini/lib/util/lifted/influx/meta/proto"
+	"github.com/openGemini/openGemini/lib/util/lifted/protobuf/proto"
 	kit "github.com/openGemini/openGemini/lib/verifkit"
 	"go.uber.org/zap"
 )
@@ -753,53 +755,44 @@ func (e *c15Env) transition(root int, path []int, cutFrom int) c15Result {
 	return e.c15Check(root, path, cutFrom)
 }
 
-// report re-executes a failing case (determinism rule) and records the violations.
 // c15Probe feeds the same log to many fresh instances (no snapshots): more than one outcome means that
 // apply itself is not a function of the log (hash-map iteration order is the only source in this code).
 func (e *c15Env) probe(root int, path []int) *c15Vio {
 	e.setHA(root)
 	cmds := e.full(root, path)
 	seedLen := len(e.roots[root].Seed)
-	const instances = 24
-	type outcome struct {
-		rets []string
-		hash string
-	}
-	var outs []outcome
+	// an order-dependent pick among two entries of a small Go map flips with probability 1/8 per instance:
+	// 256 instances miss it with probability 1e-15
+	const instances = 256
+	var firstRets []string
+	firstHash := ""
 	for k := 0; k < instances; k++ {
 		in := c15NewInst()
-		o := outcome{rets: make([]string, len(cmds))}
+		rets := make([]string, len(cmds))
 		for i := 0; i < len(cmds) && !in.dead; i++ {
-			o.rets[i] = in.apply(i, cmds[i])
+			rets[i] = in.apply(i, cmds[i])
 		}
+		hash := ""
 		if !in.dead {
 			if d, err := in.dumpHash(); err == nil {
-				o.hash = d.Hash
+				hash = d.Hash
 			}
 		}
-		outs = append(outs, o)
-	}
-	for i := range cmds {
-		seen := map[string]bool{}
-		for _, o := range outs {
-			seen[o.rets[i]] = true
+		if k == 0 {
+			firstRets, firstHash = rets, hash
+			continue
 		}
-		if len(seen) > 1 {
-			var rs []string
-			for r := range seen {
-				rs = append(rs, strconv.Quote(r))
+		for i := range cmds {
+			if rets[i] != firstRets[i] {
+				rs := []string{strconv.Quote(rets[i]), strconv.Quote(firstRets[i])}
+				sort.Strings(rs)
+				return &c15Vio{"nondeterministic_apply", cmds[i].Name, fmt.Sprintf("fresh instances fed the same log (no snapshot involved): command #%d %s returned %s on one and %s on another",
+					i-seedLen, cmds[i].Name, rs[0], rs[1])}
 			}
-			sort.Strings(rs)
-			return &c15Vio{"nondeterministic_apply", cmds[i].Name, fmt.Sprintf("%d instances fed the same log: command #%d %s returned %d different results: %s",
-				instances, i-seedLen, cmds[i].Name, len(rs), strings.Join(rs, " / "))}
 		}
-	}
-	seen := map[string]bool{}
-	for _, o := range outs {
-		seen[o.hash] = true
-	}
-	if len(seen) > 1 {
-		return &c15Vio{"nondeterministic_apply", cmds[len(cmds)-1].Name + " :: catalogue", fmt.Sprintf("%d instances fed the same log end in %d different catalogues", instances, len(seen))}
+		if hash != firstHash {
+			return &c15Vio{"nondeterministic_apply", cmds[len(cmds)-1].Name + " :: catalogue", "fresh instances fed the same log (no snapshot involved) end in different catalogues"}
+		}
 	}
 	return nil
 }
@@ -891,6 +884,21 @@ func c15Run(t *testing.T, prop string) {
 		seenNames[c.Name] = true
 	}
 	rep.Max("max_menu_commands", int64(len(e.menu)))
+	// every registered command type must be in the menu
+	inMenu := map[proto2.Command_Type]bool{}
+	for _, c := range e.menu {
+		var cmd proto2.Command
+		if err := proto.Unmarshal(c.Data, &cmd); err != nil {
+			panic(err)
+		}
+		inMenu[cmd.GetType()] = true
+	}
+	for typ := range applyFunc {
+		if !inMenu[typ] {
+			panic(fmt.Sprintf("menu has no command of registered type %v", typ))
+		}
+	}
+	rep.Max("max_command_types", int64(len(inMenu)))
 
 	if kit.ReplayPath() != "" {
 		var cs c15Case
@@ -909,8 +917,16 @@ func c15Run(t *testing.T, prop string) {
 			}
 			res := e.transition(cs.Root, cs.Path[:k], 0)
 			rep.Eval(1)
-			if k == len(cs.Path) && len(res.Vios) > 0 {
-				e.report(cs.Root, cs.Path, 0, res)
+			if k == len(cs.Path) {
+				if len(res.Vios) == 0 && prop == "C15" {
+					// a nondeterministic case may agree by chance in one execution: ask the probe
+					if nd := e.probe(cs.Root, cs.Path); nd != nil {
+						res.Vios = []c15Vio{*nd}
+					}
+				}
+				if len(res.Vios) > 0 {
+					e.report(cs.Root, cs.Path, 0, res)
+				}
 			}
 		}
 		return
